@@ -276,6 +276,60 @@ def image_candidates(t: Term) -> List[Term]:
     return cands
 
 
+def image_rows_witness(t: Term) -> Optional[str]:
+    """Witness generator for an inline minimum image fed with pre-processed coordinates (wrapped / folded scaled coordinates): the
+    candidate is evaluated on concrete frames whose particles lie partly outside the primary cell, for a fully periodic mask
+    and for masks with one open axis.  Every returned row must be the minimum image of SOME pair of particles: a position
+    difference up to whole cell vectors of periodic axes only, with periodic fractional components within [-1/2, 1/2].
+    Returns a description of the first row that is not, or None (nothing found / not evaluable)."""
+    import numpy as np
+    from ..concrete import ev as cev
+    pos_terms = sorted({x for x in walk(t) if x[0] == "attr" and x[2] == "positions"}, key=str)
+    if len(pos_terms) != 1:
+        return None
+    cell_terms = sorted({x for x in walk(t) if x[0] == "attr" and x[2] in ("hmatrix", "boxlength")}, key=str)
+    masks = [x for x in walk(t) if x == ("sym", "ppp") or (x[0] == "attr" and x[2] == "ppp")]
+    if not masks:
+        return None
+    free = sorted({x for x in walk(t) if x[0] in ("loopvar", "cvar")}, key=str)
+    rng = np.random.default_rng(11)
+    for dim, Hm in ((3, np.diag([3.0, 4.0, 5.0])), (2, np.array([[3.0, 0.0], [1.2, 4.0]]))):
+        P = rng.uniform(-0.9, 1.9, (6, dim)) @ Hm
+        Hinv = np.linalg.inv(Hm)
+        for open_axis in [None] + list(range(dim)):
+            mask = np.ones(dim, dtype=int)
+            if open_axis is not None:
+                mask[open_axis] = 0
+            env = {pos_terms[0]: P, masks[0]: mask}
+            for c_ in cell_terms:
+                env[c_] = Hm if c_[2] == "hmatrix" else np.diag(Hm).copy()
+            for v in free:
+                env[v] = 1
+            try:
+                got = np.atleast_2d(np.asarray(cev(t, env), dtype=float))
+            except Exception:  # noqa
+                return None
+            if got.ndim != 2 or got.shape[1] != dim:
+                return None
+            for r, g in enumerate(got):
+                ok = False
+                fg = g @ Hinv
+                for a in range(P.shape[0]):
+                    for b in range(P.shape[0]):
+                        f = (g - (P[a] - P[b])) @ Hinv
+                        per = mask == 1
+                        if np.all(np.abs(f[per] - np.rint(f[per])) < 1e-7) and np.all(np.abs(f[~per]) < 1e-7) and np.all(np.abs(fg[per]) <= 0.5 + 1e-7):
+                            ok = True
+                            break
+                    if ok:
+                        break
+                if not ok:
+                    return (f"cell {Hm.tolist()}, mask {mask.tolist()}, particles with fractional coordinates between -0.9 and 1.9: row {r} of the result, {np.round(g, 4).tolist()}, "
+                            f"is not the minimum image of any pair of particles (it differs from every position difference by a shift along an open axis or a non-lattice vector, "
+                            f"or lies outside the half cell)")
+    return None
+
+
 def find_inline_image(t: Term):
     """Search a value for an inline minimum-image expression (a sub-term containing a rounding call and one displacement)
     and decide it; the decisive verdict is recorded (and reported by the driver), probes are not."""
@@ -286,6 +340,13 @@ def find_inline_image(t: Term):
         if v[0] in ("ok", "bad"):
             INLINE_IMAGES[c] = v
             return v
+        if v[0] == "unknown" and any(y[0] == "call" and isinstance(y[1], str) and y[1].split(".")[-1] in ("floor", "mod", "remainder", "fmod", "ceil", "trunc") for y in walk(c)):
+            # coordinates pre-processed by a directed rounding (wrapped into the cell) before the image is taken
+            w = image_rows_witness(c)
+            if w:
+                v = ("bad", "coordinates are folded into the cell before the minimum image; " + w)
+                INLINE_IMAGES[c] = v
+                return v
     # an inner sub-term may still be the complete image (followed by further coordinate algebra): only a positive verdict counts
     cands = [x for x in walk(t) if x[0] in ("bin", "call") and any(y[0] == "call" and y[1] in ("numpy.rint", "numpy.round", "numpy.around") for y in walk(x))
              and any(y[0] == "attr" and y[2] == "positions" for y in walk(x))]
@@ -343,6 +404,12 @@ def pbc_args(t: Term) -> Optional[Tuple[Term, Term, Optional[Term]]]:
         v = inline_image(t2)
         if v[0] == "ok":
             return v[1]
+        if v[0] == "unknown" and image_grammar(t2) and any(y[0] == "call" and isinstance(y[1], str) and y[1].split(".")[-1] in ("floor", "mod", "remainder", "fmod", "ceil", "trunc")
+                                                            for y in walk(t2)):
+            # the whole distance argument is a coordinate expression that folds coordinates into the cell first
+            w = image_rows_witness(t2)
+            if w:
+                INLINE_IMAGES[t2] = ("bad", "coordinates are folded into the cell before the minimum image; " + w)
     return None
 
 
